@@ -72,6 +72,7 @@ type ping struct {
 	id      int // identifier seen on the wire (or leaked), -1 unknown (guarded by driver.mu)
 	ret     bool
 	inline  string        // kind of the message handed to Parse from inside the connection's WriteTo ("" = none)
+	rng     *rand.Rand    // for the message handed to Parse from inside this ping's send
 	slow    time.Duration // the send hangs this long inside WriteTo and then succeeds
 	release chan struct{} // fail == "blockfail": the send hangs inside WriteTo until this is closed, then fails
 	freed   bool
@@ -96,6 +97,7 @@ type driver struct {
 	nslots  int
 	panics  int
 	hangs   int
+	rseed   int64 // seed of the current behaviour's random choices (header variants, malformed shapes)
 	noDrain bool
 	abort   bool
 }
@@ -323,7 +325,7 @@ func (d *driver) onWrite(frame []byte) {
 	d.noteSent(hit, id)
 	kind := hit.inline
 	hit.inline = ""
-	d.inject(kind, "", uint16(id), hit, true)
+	d.injectR(hit.rng, kind, "", uint16(id), hit, true)
 }
 
 // decodeEcho is an independent decoder of Ethernet/IP/ICMP echo messages.
@@ -397,8 +399,8 @@ func replyVariant4(f []byte, sub string) []byte {
 var malformedSubs = []string{"short4", "short6", "iplen4", "iplen6", "proto4", "type129in4", "type0in6", "tstamp4", "short4b"}
 
 // message builds the frame of one injected ICMP message.
-func (d *driver) message(kind, sub string, id uint16, from *ping) (frame []byte, subOut string) {
-	k := 1 + d.rng.Intn(4)
+func (d *driver) message(rng *rand.Rand, kind, sub string, id uint16, from *ping) (frame []byte, subOut string) {
+	k := 1 + rng.Intn(4)
 	if from != nil {
 		k = from.k
 	}
@@ -408,7 +410,7 @@ func (d *driver) message(kind, sub string, id uint16, from *ping) (frame []byte,
 	data := []byte("HELLO-NETFILTER")
 	echo := vh.Echo(id, 1, data)
 	v4 := func(typ uint8, body []byte) []byte {
-		return vh.Ether(vh.OwnMAC, mac, 0x0800, vh.IP4(a4, d.u.Cfg.HostIP, 1, 64, uint16(d.rng.Intn(65536)), vh.ICMP4(typ, 0, body)))
+		return vh.Ether(vh.OwnMAC, mac, 0x0800, vh.IP4(a4, d.u.Cfg.HostIP, 1, 64, uint16(rng.Intn(65536)), vh.ICMP4(typ, 0, body)))
 	}
 	v6 := func(typ uint8, body []byte) []byte {
 		return vh.Ether(vh.OwnMAC, mac, 0x86dd, vh.IP6(l6, vh.HostLLA, 58, 64, vh.ICMP6(l6, vh.HostLLA, typ, 0, body)))
@@ -417,12 +419,12 @@ func (d *driver) message(kind, sub string, id uint16, from *ping) (frame []byte,
 	case "echoReply4":
 		// a complete echo reply is one whatever its IPv4 header looks like: header variations a sender's stack may produce
 		if sub == "" {
-			sub = []string{"", "", "df", "rsv", "tos", "ttl1", "opts", "pad", "df+opts"}[d.rng.Intn(9)]
+			sub = []string{"", "", "df", "rsv", "tos", "ttl1", "opts", "pad", "df+opts"}[rng.Intn(9)]
 		}
 		return replyVariant4(v4(0, echo), sub), sub
 	case "echoReply6":
 		if sub == "" {
-			sub = []string{"", "", "tcflow", "hop1"}[d.rng.Intn(4)]
+			sub = []string{"", "", "tcflow", "hop1"}[rng.Intn(4)]
 		}
 		b := v6(129, echo)
 		switch sub {
@@ -434,7 +436,7 @@ func (d *driver) message(kind, sub string, id uint16, from *ping) (frame []byte,
 		return b, sub
 	case "echoRequest":
 		if sub == "" {
-			sub = []string{"req4", "req6"}[d.rng.Intn(2)]
+			sub = []string{"req4", "req6"}[rng.Intn(2)]
 		}
 		if sub == "req4" {
 			return v4(8, echo), sub
@@ -442,7 +444,7 @@ func (d *driver) message(kind, sub string, id uint16, from *ping) (frame []byte,
 		return v6(128, echo), sub
 	}
 	if sub == "" {
-		sub = malformedSubs[d.rng.Intn(len(malformedSubs))]
+		sub = malformedSubs[rng.Intn(len(malformedSubs))]
 	}
 	switch sub {
 	case "short4": // echo reply cut inside the identifier / sequence number: 6 bytes of ICMP
@@ -475,12 +477,16 @@ func (d *driver) message(kind, sub string, id uint16, from *ping) (frame []byte,
 }
 
 func (d *driver) inject(kind, sub string, id uint16, from *ping, logit bool) {
+	d.injectR(d.rng, kind, sub, id, from, logit)
+}
+
+func (d *driver) injectR(rng *rand.Rand, kind, sub string, id uint16, from *ping, logit bool) {
 	// one message at a time (the trace has one inject/parsed pair in flight): the driver's own injections
 	// and those made from inside a ping's send function take turns
 	d.injMu.Lock()
 	defer d.injMu.Unlock()
-	frame, sub := d.message(kind, sub, id, from)
-	cp := make([]byte, len(frame), len(frame)+d.rng.Intn(32))
+	frame, sub := d.message(rng, kind, sub, id, from)
+	cp := make([]byte, len(frame), len(frame)+rng.Intn(32))
 	copy(cp, frame)
 	if logit {
 		d.mu.Lock()
@@ -628,7 +634,8 @@ func (d *driver) behaviour(bid int, want int, evs []action) bool {
 			for _, g := range group {
 				name := g.s("p")
 				k, _ := strconv.Atoi(name[1:])
-				p := &ping{name: name, k: k, fam: g.s("fam"), fail: g.s("fail"), done: make(chan struct{}), id: -1, inline: g.s("inline"), release: make(chan struct{})}
+				p := &ping{name: name, k: k, fam: g.s("fam"), fail: g.s("fail"), done: make(chan struct{}), id: -1, inline: g.s("inline"), release: make(chan struct{}),
+					rng: rand.New(rand.NewSource(d.rseed*31 + int64(k)))}
 				sl, ok := d.slots[name]
 				if !ok {
 					sl = d.nslots + 2
@@ -759,9 +766,12 @@ func main() {
 	sc.Buffer(make([]byte, 1<<20), 1<<24)
 	var cur []action
 	bid, behaviours, want := -1, 0, -1
+	rseed := seed
 	ok := true
 	flush := func() {
 		if bid >= 0 && ok {
+			d.rseed = rseed
+			d.rng = rand.New(rand.NewSource(rseed))
 			ok = d.behaviour(bid, want, cur)
 			behaviours++
 		}
@@ -776,6 +786,7 @@ func main() {
 		if a.s("a") == "reset" {
 			flush()
 			bid = a.i("bid")
+			rseed = seed*1000003 + int64(a.i("rseed"))
 			want = -1
 			if _, has := a["next"]; has {
 				want = a.i("next")
